@@ -2,9 +2,12 @@
 
 package c07poollife
 
-// Minimal reproductions of the grounds on which the pool refresh after a block (storeBlock -> mempool.RemoveStale with
-// Blockchain.IsTxStillRelevant) keeps a transaction that is no longer admissible, so that the block a proposer makes of
-// its pool is refused by an independent replica. Each test FAILS while the ground is open in the tree under test:
+// Minimal scenarios of the grounds on which the pool refresh after a block (storeBlock -> mempool.RemoveStale with
+// Blockchain.IsTxStillRelevant) USED TO keep a transaction that is no longer admissible, so that the block a proposer
+// made of its pool was refused by an independent replica: blocked-signer (repaired by a772241), fee-per-byte,
+// fee-per-byte-ratchet, exec-fee, attribute-fee (found by this extension, repaired by c8f704d). Regression tests: each
+// one requires the repaired behaviour (the refresh drops the transaction, the proposal is accepted) and FAILS on a tree
+// where the ground is open:
 //
 //	cd /verif/harness && GOFLAGS=-mod=mod GOPROXY=off go test -tags verif -count=1 -run 'TestRepro' ./c07poollife -v
 
@@ -72,6 +75,16 @@ func reproduce(t *testing.T, u Universe, steps ...policyStep) {
 				s.method, s.args, w.bc.GetMemPool().Count(), len(sel), err)
 		}
 	}
+	w.requireDropped(t)
+}
+
+// requireDropped: every pooled transaction an independent node refuses now must have been dropped by the refresh.
+func (w *World) requireDropped(t *testing.T) {
+	for _, tx := range w.bc.GetMemPool().GetVerifiedTransactions() {
+		if err := w.rep.VerifyTx(fresh(tx)); err != nil {
+			t.Errorf("the refresh kept transaction %s which an independent node refuses: %v", tx.Hash().StringLE(), err)
+		}
+	}
 }
 
 func tightFee(size int, fpb, exec int64) int64 { return int64(size)*fpb + sigK*exec }
@@ -126,6 +139,10 @@ func TestReproFeePerByteRatchet(t *testing.T) {
 		t.Errorf("fee per byte 500 -> 4000 (pool had seen 5000 before): pool keeps a transaction paying %d per byte, the block of %d proposed from it is refused: %v",
 			tx.FeePerByte(), len(sel), err)
 	}
+	w.requireDropped(t)
+	if w.bc.GetMemPool().Count() != 0 {
+		t.Errorf("the underpaying transaction is still pooled")
+	}
 }
 
 // attribute-fee: Policy.setAttributeFee raised for an attribute a pooled transaction carries.
@@ -150,6 +167,10 @@ func TestReproAttributeFee(t *testing.T) {
 	sel, raw := w.proposal()
 	if err := w.judge(raw); err != nil {
 		t.Errorf("Conflicts attribute fee 0 -> 50000: pool keeps the transaction, the block of %d proposed from it is refused: %v", len(sel), err)
+	}
+	w.requireDropped(t)
+	if w.bc.GetMemPool().Count() != 0 {
+		t.Errorf("the underpaying transaction is still pooled")
 	}
 }
 
